@@ -88,18 +88,30 @@ def build(repo):
 
 
 def _run_part(args):
-    prop, lines, tag, work = args
+    prop, lines, tag, work, run_prop = args
     env = dict(os.environ)
     env["LLVM_PROFILE_FILE"] = os.path.join(work, f"{prop}-{tag}-%p.profraw")
     try:
-        subprocess.run([COVBIN, prop, "run"], input=("\n".join(lines) + "\n").encode(), env=env,
+        subprocess.run([COVBIN, run_prop or prop, "run"], input=("\n".join(lines) + "\n").encode(), env=env,
                        stdout=subprocess.DEVNULL, stderr=subprocess.DEVNULL, timeout=1500)
     except subprocess.TimeoutExpired:
         pass
     return True
 
 
-def measure(prop, reqs, repo, tools, work, keep=False):
+def siblings(prop):
+    """other properties that anchor at least one of this property's files (their requests execute the same code and their
+    own check compares the model on them); C20 is left out (its requests compile crates)"""
+    mine = set(anchors(prop))
+    out = []
+    for l in open(os.path.join(ROOT, "properties.jsonl")):
+        p = json.loads(l)
+        if p["id"] not in (prop, "C20") and mine & set(p["anchors"]["files"]):
+            out.append(p["id"])
+    return out
+
+
+def measure(prop, reqs, repo, tools, work, keep=False, run_prop=None):
     """-> {file: {"regions": n, "reached": n, "unreached": [(line, col, text)]}} over executed functions"""
     os.makedirs(work, exist_ok=True)
     if not keep:
@@ -110,7 +122,7 @@ def measure(prop, reqs, repo, tools, work, keep=False):
     parts = [reqs[i:i + k] for i in range(0, len(reqs), k)]
     stamp = str(len(glob.glob(os.path.join(work, f"{prop}-*.profraw"))))
     with ThreadPoolExecutor(max_workers=NCPU) as ex:
-        list(ex.map(_run_part, [(prop, p, f"{stamp}_{i}", work) for i, p in enumerate(parts)]))
+        list(ex.map(_run_part, [(prop, p, f"{stamp}_{i}", work, run_prop) for i, p in enumerate(parts)]))
     raws = glob.glob(os.path.join(work, f"{prop}-*.profraw"))
     if not raws:
         return None
@@ -164,6 +176,10 @@ def measure(prop, reqs, repo, tools, work, keep=False):
                 src_cache[fname] = open(fname, encoding="utf-8", errors="replace").read().split("\n")
             src = src_cache[fname]
             text = src[key[1] - 1] if key[1] - 1 < len(src) else ""
+            if key[2] - 1 < len(text) and text[key[2] - 1] == "?" and (key[1], key[2] + 1) >= (key[3], key[4]):
+                # the implicit error-propagation arm of a `?` operator: no code of its own
+                o["regions"] -= 1
+                continue
             o["unreached"].append((key[1], key[2], text.strip()[:160], key[3]))
     return out
 
